@@ -19,6 +19,7 @@ EXPLANATION = (
     "the NotContacted arm of next always returns (a fresh peer is contacted or the query waits), and QueryState::Finished is "
     "returned only past cnt >= num_results, after the loop with num_waiting == 0, or when progress already is Finished - so a "
     "finish with fewer than k results has seen no NotContacted peer.")
+EXPLANATION += (" Added while testing: R4 also fixes what the result counter counts (Succeeded peers only) and the hand-over of a peer by QueryPool::poll. R5: on_success iterates over the whole answer and every iteration reaches the insert; Service::discovered hands the (admissibility-filtered) answer itself to on_success, keeps one seen record per node id, and the caller's result takes one record per id.")
 NOT_DECIDED = ["'at most k distinct nodes' beyond take()", "behaviour under late answers (value-level)"]
 TRUSTED = ["BTreeMap iterates in key order; Iterator::take / filter_map"]
 
